@@ -140,4 +140,57 @@ func factsEngine() {
 		add("Engine", "subStartSticky", "Bool", val,
 			"subprocess.go never re-arms the inner start events, so a second activation completes at once")
 	}
+	// throwFuse: in throwEvent.run the reply to a token's nextActionMessage depends on the `activated` flag
+	// (flowAction the first time, completeAction afterwards: D38) — or every token gets flowAction.
+	{
+		f := load("event_throw.go")
+		fd := funcDecl(f, "throwEvent", "run")
+		val := ""
+		if fd != nil {
+			var clause *ast.CaseClause
+			ast.Inspect(fd, func(n ast.Node) bool {
+				if cc, ok := n.(*ast.CaseClause); ok && len(cc.List) == 1 && exprString(cc.List[0]) == "nextActionMessage" {
+					clause = cc
+				}
+				return true
+			})
+			if clause != nil {
+				// entryOnly: the guard also asks whether the event was used as an entry point (`triggered`): tokens
+				// that REACH an event nobody triggered are not subject to it
+				flows, completes, guarded, entryOnly := 0, 0, false, false
+				for _, st := range clause.Body {
+					ast.Inspect(st, func(n ast.Node) bool {
+						switch x := n.(type) {
+						case *ast.IfStmt:
+							if c := exprString(x.Cond); strings.Contains(c, "activated") {
+								guarded = true
+								if strings.Contains(c, "triggered") && strings.Contains(c, "&&") && !strings.Contains(c, "||") {
+									entryOnly = true
+								}
+							}
+						case *ast.SendStmt:
+							v := exprString(x.Value)
+							if strings.HasPrefix(v, "flowAction") {
+								flows++
+							}
+							if strings.HasPrefix(v, "completeAction") {
+								completes++
+							}
+						}
+						return true
+					})
+				}
+				switch {
+				case flows == 1 && completes == 0 && !guarded:
+					val = "false"
+				case flows == 1 && completes == 1 && guarded && entryOnly:
+					val = "false"
+				case flows == 1 && completes == 1 && guarded:
+					val = "true"
+				}
+			}
+		}
+		add("Engine", "throwFuse", "Bool", val,
+			"event_throw.go: only the first token to reach an intermediate throw event passes it (true) / every token does, unless the event was used as an entry point (false)")
+	}
 }
